@@ -404,6 +404,7 @@ CACHES = ["_matrix_containers", "_global_matrix_containers", "_prepared_matrix_c
 def r5(ctx) -> None:
     repo = ctx.repo
     lib.check_filled_items_fresh(ctx, "C10-R5")
+    lib.check_no_parameter_state_in_constructors(ctx, "C10-R5")
     entries = [
         (EST, "EstimationProviderUnlinked.estimate"),
         (EST, "EstimationProviderLinked.estimate"),
